@@ -23,6 +23,9 @@ def make_scenarios(ctx, count):
         s = H.Scenario("b%d" % i)
         s.iface(0, **H.iface_kw(cfg)).glob(**G.global_kw(G.rand_global(rng, icon_size=0)))
         s.add("OPT sleep=0 txhex=0")
+        if i % 3 == 2:
+            # sending the Hello takes time (a blocking raw-socket write), the clock moves with every read
+            s.add("OPT hellocost=%d clocktick=%d txcost=%d" % (rng.choice([1, 7, 40, 400]), rng.choice([0, 1]), rng.choice([0, 3])))
         s.add("NOW %d" % rng.choice([1, 1000, 123456, (1 << 32) - 20000, 1 << 40]))
         ops = []
         m = 0
